@@ -431,6 +431,10 @@ func recoverEngine(logger log.Logger, expr parser.Expr, errp *error) {
 
 		level.Error(logger).Log("msg", "runtime panic in engine", "expr", expr.String(), "err", e, "stacktrace", string(buf))
 		*errp = errors.Wrap(err, "unexpected error")
+	case error:
+		*errp = errors.Wrap(err, "unexpected error")
+	default:
+		*errp = errors.Newf("unexpected error: %v", e)
 	}
 }
 
